@@ -223,6 +223,28 @@ def audit(prop, workdir):
     return res
 
 
+def coqchk(prop):
+    """Thorough tier: re-check the compiled closure of the property with the independent checker and
+    read its context summary (axioms, type-in-type, unsafe fixpoints, assumed positivity)."""
+    if not os.path.exists(os.path.join(COQ, "Properties", prop + ".vo")):
+        return {"ran": False, "ok": False, "why": "Properties/%s.vo missing" % prop}
+    t0 = time.time()
+    rc, out = sh("timeout 3000 coqchk -o -silent -Q . Verif Verif.Properties.%s 2>&1" % prop, cwd=COQ, timeout=3100)
+    res = {"ran": True, "rc": rc, "wall_s": round(time.time() - t0, 1)}
+    summ = {}
+    for key, pat in (("axioms", r"\* Axioms:(.*?)(?=\n\* |\Z)"),
+                     ("type_in_type", r"\* Constants/Inductives relying on type-in-type:(.*?)(?=\n\* |\Z)"),
+                     ("unsafe_fixpoints", r"\* Constants/Inductives relying on unsafe \(co\)fixpoints:(.*?)(?=\n\* |\Z)"),
+                     ("assumed_positivity", r"\* Inductives whose positivity is assumed:(.*?)(?=\n\* |\Z)")):
+        m = re.search(pat, out, re.S)
+        summ[key] = " ".join(m.group(1).split()) if m else None
+    res["summary"] = summ
+    res["ok"] = rc == 0 and all(v == "<none>" for v in summ.values())
+    if not res["ok"]:
+        res["tail"] = out[-1500:]
+    return res
+
+
 # ---------------------------------------------------------------------------------------------
 # running the implementation (Rust harness) and the model (extracted OCaml)
 # ---------------------------------------------------------------------------------------------
@@ -448,6 +470,11 @@ def proof_gate(run, build_info, audit_res):
     for a in audit_res:
         if not a["ok"]:
             problems.append("obligation %s (%s) not discharged; axioms=%s" % (a["name"], a["kind"], a["axioms"]))
+    if run.tier == "thorough":
+        ck = coqchk(run.prop)
+        run.cov["coqchk"] = ck
+        if not ck["ok"]:
+            problems.append("coqchk -o on Properties/%s.vo: %s" % (run.prop, json.dumps(ck)[:1500]))
     bad = forbidden_scan()
     for b in bad:
         problems.append("forbidden construct %s at coq/%s:%d" % (b[2], b[0], b[1]))
